@@ -68,7 +68,8 @@ def _dataset(title_w, abstract, abs_w, cov, dt, ir, ks1, ks2, meth, proj) -> str
             exp.append(("DATASET_ABSTRACT_TOO_SHORT", "ds"))
     elif abstract == 2:
         half = abs_w // 2
-        ds.add_child(mk("abstract", "ab", None, [mk("para", "p1", words(half)), mk("section", "s1", None, [mk("para", "p2", words(abs_w - half))])]))
+        ds.add_child(mk("abstract", "ab", None, [mk("para", "p1", words(half)),
+                                                 mk("section", "s1", None, [mk("section", "s2", None, [mk("para", "p2", words(abs_w - half))])])]))
         if abs_w < 20:
             exp.append(("DATASET_ABSTRACT_TOO_SHORT", "ds"))
     else:
@@ -282,7 +283,8 @@ def h_description(parent: int, fill: int) -> str:
     if fill == 2:
         d.add_child(mk("para", "p1", "text"))
     elif fill == 3:
-        d.add_child(mk("section", "s1", None, [mk("para", "p1", "text")]))
+        d.add_child(mk("section", "s1", None, [mk("section", "s2", None, [mk("para", "p1", None, [mk("itemizedlist", "il", None, [
+            mk("listitem", "li", None, [mk("para", "p2", "text")])])])])]))
     elif fill == 4:
         d.add_child(mk("markdown", "m1", "text"))
     root = mk(pname, "P", None, [d]) if pname else d
